@@ -33,6 +33,12 @@ ASSUMPTIONS = [
     'thread belong to C04 / C14); a lost datagram is seen by the monitor (it sits on the console side of the wire)',
     'user names are ASCII (IPMI user names are ASCII); the digest function is a parameter of the theorems',
     'random.randrange is pinned and its value passed to the model',
+    'the expected number of datagrams / outcome class under injected faults is computed by the harness (_expect: each request '
+    'at most max_retries+1 times, stop at the first failure); the per-step fault theorems are proved in the any-peer form '
+    '(handshake_order) and for losses within the retry budget (lifecycle_within_budget), the exact stopping point under a '
+    'fault beyond the budget or an error completion code is checked by this run only',
+    'session_datagrams / bmc_never_objects quantify over the reference BMC family (every BmcCfg satisfying Setup), not over '
+    'arbitrary third-party BMC implementations',
 ]
 TRUSTED = ['harness/translate/rmcp.py', 'harness/sim/fakesock.py', 'harness/props/c06.py']
 
